@@ -123,7 +123,7 @@ def body(run: Run, replay):
             skip_vals = point["ic"] == "steady" and (freq == 0).any() and point["stype"] in ("reldisp", "pvelo", "pacce")
             if hist.shape != exp.shape:
                 bad = "resp['hist'] has shape %r, index model says %r" % (hist.shape, exp.shape)
-            elif not skip_vals:
+            elif not skip_vals and exp.size:
                 sc = max(np.abs(exp).max(), 1e-300)
                 err = np.abs(hist - exp).max() / sc
                 if not err <= 1e-9:
@@ -233,9 +233,11 @@ def laws(run, np, srs, rng):
         a, p, ng = g(peak="abs"), g(peak="pos"), g(peak="neg")
         if not np.array_equal(a, np.maximum(p, ng)):
             run.violation("srs law: abs = max(pos, neg)", {"trial": trial, "ic": ic}, {"law": "abs"})
-        for pk in ("abs", "pos", "neg"):
+        # 'pos' / 'neg' are magnitudes of the signed extreme: when every response value is negative, |max over total| is the SMALLER
+        # of the two magnitudes, so the law is stated on the signed statistics ('poss': largest, 'negs': smallest) and on 'abs'
+        for pk, comb in (("abs", np.maximum), ("poss", np.maximum), ("negs", np.minimum)):
             t_, pr, rs = g(peak=pk, time="total"), g(peak=pk, time="primary"), g(peak=pk, time="residual")
-            if not np.array_equal(t_, np.maximum(pr, rs)):
+            if not np.array_equal(t_, comb(pr, rs)):
                 run.violation("srs law: total = max(primary, residual) for peak=%s" % pk, {"trial": trial, "ic": ic}, {"law": "total"})
         rd = g(stype="reldisp")
         if not np.allclose(g(stype="pvelo"), rd * w[:, None], rtol=1e-12, atol=0) or not np.allclose(g(stype="pacce"), rd * (w ** 2)[:, None], rtol=1e-12, atol=0):
